@@ -82,10 +82,14 @@ class Fault(object):
 
     method: wire method name or None (any); nth: fire on the nth matching call
     (1-based) or None (every); action: 'raise' | 'hang' | 'delay' | 'disconnect'
-    | 'lose-response' | 'raise-after' (run the method, then answer with an error);
-    delay: virtual seconds for 'delay'."""
+    | 'lose-response' | 'raise-after' (run the method, then answer with an error)
+    | 'hold' (run the method, keep the answer back until VServer.release_held());
+    delay: virtual seconds for 'delay'; when: optional predicate over the call's
+    positional arguments (only calls it accepts are counted)."""
 
-    def __init__(self, action, method=None, nth=None, delay=0.0, target=None, after_nth=None, delay_step=0.0):
+    def __init__(self, action, method=None, nth=None, delay=0.0, target=None, after_nth=None, delay_step=0.0,
+                 when=None):
+        self.when = when
         self.action = action
         self.method = method
         self.nth = nth
@@ -96,8 +100,10 @@ class Fault(object):
         self.seen = 0
         self.fired = 0
 
-    def matches(self, methname, is_root):
+    def matches(self, methname, is_root, args=()):
         if self.method is not None and self.method != methname:
+            return False
+        if self.when is not None and not self.when(args):
             return False
         if self.target == "root" and not is_root:
             return False
@@ -200,7 +206,7 @@ class Wire(object):
                 return  # request lost with the connection; caller was already failed
             rec["state"] = "delivered"
             rec["t_srv"] = sched.reactor.seconds()
-            action, fault = vs.pick_fault(methname, self.is_root)
+            action, fault = vs.pick_fault(methname, self.is_root, args)
             if action == "raise":
                 rec["result"] = "injected-raise"
                 return respond(Failure(RemoteException(Failure(InjectedError("injected failure in %s" % methname)))),
@@ -244,6 +250,11 @@ class Wire(object):
                 return respond(Failure(RemoteException(Failure(InjectedError("injected failure after %s" % methname)))))
             if grid.mutate_response is not None:
                 res = grid.mutate_response(vs, methname, args, res, self.original)
+            if action == "hold":
+                rec["result"] = "held"
+                wrapped = self._wrap_result(_copy(res))
+                vs.held.append((callno, methname, lambda: respond(wrapped)))
+                return
             respond(self._wrap_result(_copy(res)), delay=fault.current_delay() if action == "delay" else 0.0)
 
         sched.post(vs.name, "req", label, deliver_req)
@@ -353,6 +364,7 @@ class VServer(object):
         self.faults = []
         self.calls = {}
         self.hung = []
+        self.held = []
         self.inflight = {}
         self.client_side_disconnect = {}
         self.server_side_disconnect = {}
@@ -396,9 +408,18 @@ class VServer(object):
     def incoming_files(self):
         return [p for p in self.all_share_files() if "/incoming/" in p]
 
-    def pick_fault(self, methname, is_root):
+    def release_held(self, order=None):
+        """Let the answers kept back by 'hold' faults go out now (all become deliverable at this instant)."""
+        held, self.held = self.held, []
+        if order is not None:
+            held = [held[i] for i in order]
+        for (_, _, go) in held:
+            go()
+        return len(held)
+
+    def pick_fault(self, methname, is_root, args=()):
         for f in self.faults:
-            if f.matches(methname, is_root):
+            if f.matches(methname, is_root, args):
                 f.fired += 1
                 return f.action, f
         return None, None
